@@ -106,6 +106,31 @@ CHECKS = {
              "and outside; numpy.exp is modelled by the listed axioms (each a true fact of a faithful exp); eigen-frame real-ness is a "
              "concrete check over the 15 keys.",
         design="3/C12"),
+    "C06": dict(
+        engine="symnum+z3",
+        technique="symbolic execution of CijPressureBase* with v2p as an uninterpreted function (congruence), symbolic execution of qha's "
+                  "v2p body/_lagrange4 per bracket with z3 identities, forking execution of desired_pressure_status with per-path "
+                  "'raises <=> overshoot' solver obligations",
+        text="Partial: (a) every pressure-base quantity, tensor entry and attribute spelling is V2P of exactly the matching volume-base "
+             "quantity with the QHA pressure field and requested grid (for every implementation of v2p); (b) qha's interpolation kernel "
+             "maps its own pressure field to the requested pressure and reproduces cubics exactly, for every bracket with distinct "
+             "nodes; (c) the range check raises ValueError iff min_T P[T,last] < max requested p on all explored paths, runs after "
+             "refine_grid and propagates.",
+        note="'P(T,V(T,P)) = P to interpolation accuracy' and monotonicity of V(P) for arbitrary data are numerical-analysis statements "
+             "and are not claimed. The bracket search (numba) is stubbed by enumeration.",
+        design="3/C06"),
+    "C07": dict(
+        engine="symnum+z3",
+        technique="symbolic execution of _calculate_compliances and the VRH / velocity properties on symbolic stiffness fields with an "
+                  "uninterpreted symmetric inverse; z3 identities against 3^4 tensor contractions; nlsat for the ordering on "
+                  "explicit-inverse subclasses",
+        text="For all stiffness / inverse / mass / volume symbols: the matrix inverted is the symmetric Voigt matrix of the tensor, "
+             "compliances are its inverse's entries, K_V, G_V, K_R, G_R, Hill values equal the full-tensor contractions, "
+             "rho v_s^2 = G_VRH and rho v_p^2 = K_VRH + 4/3 G_VRH in km/s. Reuss<=Hill<=Voigt only for cubic and (bulk) transversely "
+             "isotropic tensors (nlsat).",
+        note="S.C = I itself is the contract of numpy.linalg.inv (stubbed); ordering for general positive-definite tensors is not "
+             "decided by nlsat and not claimed; unit factors read as symbols when within 1e-8 of CODATA.",
+        design="3/C07"),
 }
 
 NOT_APPLICABLE = {
